@@ -1,5 +1,6 @@
 """Lsctp (layers/sctp.go: common header + chunk walk; serves C19 C05 C06 C07 C01) configuration for ./check"""
 CONF = {
+    'coq_sample': 15,   # cases re-evaluated inside Coq by vm_compute against the extracted runner's output
     'interesting': ['truncated-prefix-of-valid', 'option-length-extreme', 'residue-options', 'odd-payload',
                     'dirty-buffer', 'no-fixlengths', 'error-after-add'],
     'rule': 'Common header: every truncation 0..13, reuse pairs, SerializeTo x ComputeChecksums x fresh/dirty/pre-sized buffer, round '
